@@ -49,7 +49,7 @@ FN_RE = r"^(\s*)(?:pub(?:\([^)]*\))?\s+)?(?:const\s+)?(?:unsafe\s+)?fn\s+%s\s*[(
 def find_fn_line(lines, fn, impl=None, path="?"):
     start = 0
     if impl:
-        pat = re.compile(r"^\s*impl\b.*%s" % re.escape(impl))
+        pat = re.compile(impl) if impl.startswith("^") else re.compile(r"^\s*impl\b.*%s" % re.escape(impl))
         hits = [i for i, l in enumerate(lines) if pat.search(l)]
         if not hits:
             raise Undecided("lost anchor: `impl ... %s` not found in %s" % (impl, path))
